@@ -118,6 +118,8 @@ def install(mutations=None):
     for owner, name, wrapped, old in aplan:
         setattr(owner, name, wrapped)
     _state['installed'] = True
+    for (owner, name), (native, rewritten, raw) in _state.setdefault('mutants', {}).items():
+        setattr(owner, name, rewritten)
 
 
 _MISSING = object()
@@ -136,6 +138,8 @@ def uninstall():
             else:
                 mod.__dict__[n] = v
     _state['installed'] = False
+    for (owner, name), (native, rewritten, raw) in _state.setdefault('mutants', {}).items():
+        setattr(owner, name, native)
 
 
 def mutate(owner, name, old, new, count=1):
@@ -158,21 +162,53 @@ def mutate(owner, name, old, new, count=1):
     clsname = owner.__name__ if inspect.isclass(owner) else None
     qual = ('%s.%s' % (clsname, name)) if clsname else name
     import ast, textwrap
-    tree = ast.parse(textwrap.dedent(src))
-    tree.body[0].decorator_list = []
-    selfname = tree.body[0].args.args[0].arg if tree.body[0].args.args else None
-    x = xform.Xform(qual, clsname, selfname)
-    tree = x.visit(tree)
-    ast.fix_missing_locations(tree)
-    ns = {}
-    exec(compile(tree, '<pyvc-mutant:%s>' % qual, 'exec'), mod.__dict__, ns)
-    newf = ns[fn.__name__]
-    wrapped = {'plain': newf, 'static': staticmethod(newf), 'class': classmethod(newf), 'property': property(newf)}[kind]
-    setattr(owner, name, wrapped)
+
+    def build(rewrite):
+        tree = ast.parse(textwrap.dedent(src))
+        tree.body[0].decorator_list = []
+        selfname = tree.body[0].args.args[0].arg if tree.body[0].args.args else None
+        if rewrite:
+            tree = xform.Xform(qual, clsname, selfname).visit(tree)
+        else:
+            tree = _SuperOnly(clsname, selfname).visit(tree)
+        ast.fix_missing_locations(tree)
+        ns = {}
+        exec(compile(tree, '<pyvc-mutant:%s>' % qual, 'exec'), mod.__dict__, ns)
+        f = ns[fn.__name__]
+        return {'plain': f, 'static': staticmethod(f), 'class': classmethod(f), 'property': property(f)}[kind]
+
+    was = _state['installed']
+    rewritten = build(True)
+    if was:
+        uninstall()
+    orig_native = vars(owner)[name] if inspect.isclass(owner) else getattr(owner, name)
+    native = build(False)
+    _state.setdefault('mutants', {})[(owner, name)] = (native, rewritten, raw)
+    setattr(owner, name, native)
+    if was:
+        install()
 
     def undo():
-        setattr(owner, name, raw)
+        _state['mutants'].pop((owner, name), None)
+        was2 = _state['installed']
+        if was2:
+            uninstall()
+        setattr(owner, name, orig_native)
+        if was2:
+            install()
     return undo
+
+
+class _SuperOnly(__import__('ast').NodeTransformer):
+    def __init__(self, clsname, selfname):
+        self.clsname, self.selfname = clsname, selfname
+
+    def visit_Call(self, node):
+        import ast
+        self.generic_visit(node)
+        if isinstance(node.func, ast.Name) and node.func.id == 'super' and not node.args and self.clsname:
+            node.args = [ast.Name(self.clsname, ast.Load()), ast.Name(self.selfname, ast.Load())]
+        return node
 
 
 _SRC = {}
